@@ -331,7 +331,17 @@ func generate(rng *rand.Rand, tier string) []interface{} {
 							in.TLSVer = "1.2"
 						}
 						ins = append(ins, in)
+						// the honest router with UnauthOk set (simulation / local test servers)
+						inU := clone(in)
+						inU.UnauthOk = true
+						ins = append(ins, inU)
 					} else {
+						for _, v := range []string{"1.2", "1.3"} {
+							inU := clone(in)
+							inU.TLSVer = v
+							inU.UnauthOk = true
+							ins = append(ins, inU)
+						}
 						ins = append(ins, in)
 						in2 := clone(in)
 						in2.TLSVer = "1.2"
@@ -344,6 +354,9 @@ func generate(rng *rand.Rand, tier string) []interface{} {
 				in.TLSVer = v
 				in.Msgs = 3
 				ins = append(ins, in)
+				inU := clone(in)
+				inU.UnauthOk = true
+				ins = append(ins, inU)
 			}
 		}
 	}
@@ -391,6 +404,7 @@ func generate(rng *rand.Rand, tier string) []interface{} {
 		in := base(level, s, r, kA)
 		in.TLSVer = []string{"1.2", "1.3"}[rng.Intn(2)]
 		in.Msgs = 1 + rng.Intn(3)
+		in.UnauthOk = level == "tls" && rng.Intn(2) == 0
 		mutate(rng, &in, 1+rng.Intn(4))
 		if r == "accept" {
 			in.Expected = 0
